@@ -163,7 +163,7 @@ KEY_CHOICES = (
 
 
 def rand_x(rng, n):
-    ids = rng.sample(range(0, 40), n)
+    ids = rng.sample(range(0, max(40, 2 * n)), n)
     nodes = []
     extras = rng.random() < 0.4
     for i in ids:
